@@ -177,8 +177,8 @@ def _sym_world(w, h, d):
     env.cells = _Cells(w, h, d)
     env._index_offset = 1
     env.wrap_env = False
-    env.agents = {}
-    env.components = {}
+    env.agents.clear()
+    env.components.clear()
     return env
 
 
